@@ -139,7 +139,9 @@ def expected_content(s, opts, scope, depth):
     # preamble
     if eff is None:
         indent = int(opts.get('indent', 0))
-        kind = opts.get('line_endings') or s.kind
+        kind = opts.get('line_endings')
+        if kind not in ('unix', 'dos'):
+            kind = s.kind
         r = spec.split_indented(s.body, spec.nl(kind, None), 1, indent)
         return b''.join(r[1])
     return s.cval
@@ -151,6 +153,11 @@ def variations(secs):
     """List of (label, function(secs) -> None mutating a cloned list).
     Each is a single foreign-producer deviation."""
     V = []
+    if secs and dict(secs[0].opts).get('encoding') == 'utf-8' and \
+            all(s.eff in (None, 'utf-8') for s in secs if s.is_content) and \
+            not any(dict(s.opts).get('encoding') for s in secs[1:]):
+        # a producer that declares no encoding at all: content stays bytes
+        V.append(('drop:main-encoding@0', _mk_drop(0, 'encoding')))
     for i, s in enumerate(secs):
         n = len(s.opts) + (1 if s.is_content else 0)
         if n >= 2:
@@ -236,7 +243,8 @@ def _mk_order(i, perm):
         if s.is_content:
             opts.append(['length', None])
             opts.sort(key=lambda o: o[0])
-        s.opts = [opts[p] for p in perm]
+        s.opts = [opts[p] for p in perm if p < len(opts)] + \
+            [o for k, o in enumerate(opts) if k not in perm]
     return f
 
 
